@@ -263,7 +263,7 @@ pub fn c06_oracle(case: &ConvCase, exp: &Expected, obs: &Observation) -> Verdict
     let drop_not_last = (0..n.saturating_sub(1)).any(|i| matches!(case.prog(i).finish, Finish::Drop | Finish::Panic));
     let mut g = if n >= 2 && drop_not_last { Good::nontrivial() } else { Good::trivial() };
     for i in 0..n {
-        g = g.class(format!("finish:{}", match case.prog(i).finish { Finish::Respond { .. } => "respond", Finish::Writer { .. } => "writer", Finish::Upgrade { .. } => "upgrade", Finish::Drop => "drop", Finish::Panic => "panic", Finish::WriterUnused => "writer-unused", Finish::RespondFailing { .. } => "respond-failing" }));
+        g = g.class(format!("finish:{}", match case.prog(i).finish { Finish::Respond { .. } => "respond", Finish::Writer { .. } => "writer", Finish::Upgrade { .. } => "upgrade", Finish::Drop => "drop", Finish::Panic => "panic", Finish::WriterUnused => "writer-unused", Finish::WriterPanic => "writer-panic", Finish::RespondFailing { .. } => "respond-failing" }));
     }
     g = g.class(format!("transport:{:?}", case.transport));
     Verdict::Pass(g)
